@@ -59,7 +59,7 @@ def gen_cases(ctx):
                     if rng.random() < 0.3:
                         base['closable_source'] = True
                     if kind == 'src' and rng.random() < 0.4:
-                        base['source_exception'] = 'picky'        # the source's exception class cannot be re-created from its args
+                        base['source_exception'] = rng.choice(['picky', 'falsy', 'frozen'])   # cannot be re-created from its args / is falsy / takes no new attributes
                     if kind == 'src' and rng.random() < 0.5:
                         base['resume'] = rng.choice([1, 2, 4])      # a source that could go on after its exception (csv-reader like)
                     cases.append(base)
@@ -92,6 +92,12 @@ def gen_cases(ctx):
             first = dict(first, element_kind='twins')
             first.pop('unprintable_elements', None)
             cases.append(first)
+    # … and every kind of awkward source exception at least once, with results in flight
+    for kind_ in ('picky', 'falsy', 'frozen'):
+        if not any(c.get('source_exception') == kind_ and c['cfg']['nworkers'] > 0 for c in cases):
+            first = next((c for c in cases if c['kind'] == 'src' and c['cfg']['nworkers'] > 0 and c['n'] >= 1 and not c.get('resume')), None)
+            if first is not None:
+                cases.append(dict(first, source_exception=kind_))
     # corpus: the defect input of the pinned tree (DESIGN §3, D1)
     cases.insert(0, dict(cfg=dict(nworkers=2, extracache=2, skipNone=True, maxtasksperchild=None), n=6, tail=7,
                          table=[['u']] * 6, fkind='module', kwargs={}, schedule=None, demand=['N*', 'A'],
